@@ -3,7 +3,7 @@
    for the compositional half — side observations (type, input, accepted?): each element under the element type / the
    same input under each Union member (c_parts), and the same input under variants of the type with the members of one
    Union permuted (c_perms). *)
-From JV Require Import Lib.Base Model.TyVal Model.Scalar Model.Ty Model.C02TyMut Spec.Conforms Spec.ConformsRx Spec.C02Defs
+From JV Require Import Lib.Base Model.TyVal Model.Scalar Model.Ty Model.C02TyMut Model.C02Ext Spec.Conforms Spec.ConformsRx Spec.C02Defs
   Model.TyLoader Spec.C02Guard Spec.C02Group.
 
 Record sub := { s_ty : ty; s_in : val; s_acc : bool }.
@@ -62,10 +62,60 @@ Definition class_of (c : tycase) : N :=
                :: map (fun s => class_in yl (s_ty s) (s_in s))
                       (c_perms c ++ match c_parts c with Some ps => ps | None => [] end)).
 
+(* ---- cases with a declared default and/or registered / restricted Union members (Model/C02Ext.v) ------------------- *)
+Record xcase := {
+  x_ms : list member;                 (* one member: the hint itself; several: Union[members] in this order *)
+  x_dflt : option val;                (* add_argument(default=...) — assumed to conform *)
+  x_in : val; x_oracle : list (str * lres);
+  x_opq : opq_table;                  (* observed adapt_typehints(value, opaque hint): AOk w, or AErr for any exception *)
+  x_obs : obs;
+  x_parts : list bool;                (* the same input under each member alone (no default) *)
+  x_perms : list (list nat * bool) }. (* the same input under Union[members permuted] *)
+
+Definition proxy (m : member) : member := match m with MTy TNone => MTy (TLit [LNone]) | _ => m end.
+
+Definition conforms_m (m : member) (w : val) : bool :=
+  match m with
+  | MTy t => conforms t w
+  | MOpq n => match w with VOpaque k _ => str_eqb k n | VNone => true | _ => false end
+  end.
+Definition shaped_m (m : member) (v : val) : bool :=
+  match m with MTy t => wf_ty t && shaped t v | MOpq n => match v with VOpaque k _ => str_eqb k n | _ => false end end.
+
+Definition impl_xd (c : xcase) (d : option val) (ms : list member) : obs :=
+  obs_of (parse_key_x pinned (case_yload (x_oracle c)) (x_opq c) d ms (x_in c)).
+Definition impl_x (c : xcase) (ms : list member) : obs := impl_xd c (x_dflt c) ms.
+
+Definition permute (ms : list member) (idx : list nat) : list member := map (fun i => nth i ms (MTy TAny)) idx.
+
+Definition x_spec (c : xcase) : bool :=
+  let acc := is_accepted (x_obs c) in
+  match x_obs c with Accepted w => existsb (fun m => conforms_m m w) (x_ms c) | Rejected => true | Crashed => false end
+  && (if existsb (fun m => shaped_m m (x_in c)) (x_ms c) then acc else true)
+  && forallb (fun p => Bool.eqb acc (snd p)) (x_perms c)
+  && match x_ms c, x_in c with
+     | _, VNone => true                                     (* None for a key means "unset" *)
+     | _ :: _ :: _, _ => Bool.eqb acc (existsb (fun b => b) (x_parts c))
+     | _, _ => true
+     end.
+
+Definition x_model (c : xcase) : bool :=
+  obs_eqb (impl_x c (x_ms c)) (x_obs c)
+  && match x_ms c with      (* each member alone is observed WITHOUT the default (it need not conform to the member) *)
+     | _ :: _ :: _ => list_eqb Bool.eqb (map (fun m => is_accepted (impl_xd c None [proxy m])) (x_ms c)) (x_parts c)
+     | _ => true
+     end
+  && forallb (fun p => Bool.eqb (is_accepted (impl_x c (permute (x_ms c) (fst p)))) (snd p)) (x_perms c)
+  && oracle_consistent (x_oracle c).
+
+Definition x_class (c : xcase) : N :=
+  first_class (map (fun m => match m with MTy t => class_in (case_yload (x_oracle c)) t (x_in c) | MOpq _ => 0%N end) (x_ms c)).
+
 (* the second kind of case: parse_object({'g': value}) on a parser with keys g.<field> *)
 Inductive case :=
 | TyCase (c : tycase)
-| GroupCase (fields : list (str * ty)) (v : val) (o : obs).
+| GroupCase (fields : list (str * ty)) (v : val) (o : obs)
+| XCase (c : xcase).
 
 Definition judge1 (c : case) : verdict :=
   match c with
@@ -75,6 +125,7 @@ Definition judge1 (c : case) : verdict :=
       {| v_model := obs_eqb (obs_of (group_parse yl fs v)) o;
          v_class := group_class yl fs v;
          v_spec := match o with Accepted w => group_conforms fs w | Rejected => true | Crashed => false end |}
+  | XCase c => {| v_model := x_model c; v_class := x_class c; v_spec := x_spec c |}
   end.
 
 Definition judge (cs : list case) := judge_all judge1 cs.
